@@ -8,6 +8,7 @@
 #include <unistd.h>
 #include <fcntl.h>
 #include <sys/uio.h>
+#include <poll.h>
 #include <sys/syscall.h>
 #include <dlfcn.h>
 #include <cxxabi.h>
@@ -105,6 +106,8 @@ std::vector<std::pair<std::string, long>> ctrs;
 vsim::fatal_cb on_fatal = nullptr;
 long cond_wait_calls = 0;
 long alloc_calls = 0;
+bool g_child_mode = false;   // this process is the real forked copy that runs the child side of createProcess after an exec failure
+int g_child_report_fd = -1;
 int last_run_tid = 0;
 
 void fnv(uint64_t& h, uint64_t x) { for (int i = 0; i < 8; ++i) { h = (h ^ ((x >> (8 * i)) & 0xff)) * 1099511628211ull; } }
@@ -116,7 +119,13 @@ sem_t main_sem;
 sem_t* semof(Th* t) { return t->car ? &t->car->sem : &main_sem; }
 void park(Th* t) { sem_t* s = semof(t); while (sem_wait(s) == -1 && errno == EINTR) {} }
 
+// real forked copy (child side of an exec failure): tell the simulator in the parent what happened and leave at once
+[[noreturn]] void child_report(const std::string& what) {
+  std::string m = what + "\n"; if (g_child_report_fd >= 0) { ssize_t w = syscall(SYS_write, g_child_report_fd, m.data(), m.size()); (void)w; }
+  _exit(98);
+}
 void fatal(const char* cls, const std::string& detail) {
+  if (g_child_mode) child_report(std::string("FATAL ") + cls + ": " + detail);
   if (on_fatal) on_fatal(cls, detail.c_str());
   fprintf(stderr, "vsim fatal %s: %s\n", cls, detail.c_str());
   _exit(3);
@@ -141,6 +150,7 @@ struct Pipe { std::string buf; int writers = 0; int readers = 0; };
 struct Child {
   int pid = 0; int state = 0; /*0 waiting for OK, 1 ready to exec, 2 running, 3 zombie, 4 reaped*/
   vsim::Fate fate; long age = 0; int cfd_r = -1; int ffd_w = -1; int parent_thread = 0; int status = 0; int out_fd = -1; bool reusable = false;
+  bool real_done = false; bool hung = false; int real_status = 0; std::string real_note;   // outcome of the real forked copy that ran the child side of an exec failure
 };
 struct FdEnt { int pipe; bool wr; };
 std::map<int, Pipe> pipes; std::map<int, FdEnt> fds; std::map<int, Child> children;
@@ -221,6 +231,7 @@ void apply_planned_faults() {
 
 // one scheduling decision; returns when the calling thread holds the baton again
 void schedule() {
+  if (g_child_mode) return;   // only the forking thread exists in the real copy: nothing to schedule
   for (;;) {
     apply_planned_faults();
     std::vector<Cand> ch;
@@ -228,7 +239,7 @@ void schedule() {
     for (auto t : ths) if (t != self && schedulable(t)) ch.push_back({0, t->id});
     size_t nthreads_en = ch.size();
 #ifdef VSIM_PROC
-    for (auto& kv : children) { auto& c = kv.second; if (c.state == 1) ch.push_back({1, c.pid}); if (c.state == 2 && c.age >= c.fate.min_steps) ch.push_back({2, c.pid}); }
+    for (auto& kv : children) { auto& c = kv.second; if (c.state == 1) ch.push_back({1, c.pid}); if (c.state == 2 && !c.hung && c.age >= c.fate.min_steps) ch.push_back({2, c.pid}); }
     for (auto& kv : children) if (kv.second.state == 2) kv.second.age++;
 #endif
     if (ch.empty()) {
@@ -237,11 +248,15 @@ void schedule() {
       bool later = false;
       for (auto t : ths) if (t->state == B_COND && !t->woken && t->spur_step >= 0) later = true;   // a planned spurious wake-up is still to come
 #ifdef VSIM_PROC
-      for (auto& kv : children) if (kv.second.state == 2) later = true;                              // a child still has to run for a while
+      for (auto& kv : children) if (kv.second.state == 2 && !kv.second.hung) later = true;           // a child still has to run for a while
       for (auto& f : cfg.faults) if (f.kind == vsim::F_STRAY_SIGCHLD && f.a > steps) later = true;
 #endif
       if (later) { ++steps; if (steps > cfg.max_steps) fatal("no-progress", "step budget exhausted while idle: " + vsim::describe_threads()); continue; }
-      fatal("deadlock", vsim::describe_threads());
+      { std::string d = vsim::describe_threads();
+#ifdef VSIM_PROC
+        for (auto& kv : children) if (kv.second.hung) d += " [child " + std::to_string(kv.first) + " never terminates: " + kv.second.real_note + "]";
+#endif
+        fatal("deadlock", d); }
     }
     ++steps;
     if (steps > cfg.max_steps) fatal("no-progress", "step budget exhausted: " + vsim::describe_threads());
@@ -272,7 +287,10 @@ void schedule() {
 #ifdef VSIM_PROC
     if (c.kind == 1) {
       auto& k = children[c.a];
-      if (k.fate.kind == 2) { pipes[fds[k.ffd_w].pipe].buf += "NO"; close_fd(k.ffd_w); close_fd(k.cfd_r); child_zombie(k); }
+      if (k.fate.kind == 2 && k.real_done && k.hung) {   // the real copy of the child wrote "NO" and then blocked for ever in its exit path
+        pipes[fds[k.ffd_w].pipe].buf += "NO"; close_fd(k.ffd_w); close_fd(k.cfd_r); k.state = 2; k.age = 0; vsim::count("exec_failure_child_never_terminates");
+      }
+      else if (k.fate.kind == 2) { pipes[fds[k.ffd_w].pipe].buf += "NO"; close_fd(k.ffd_w); close_fd(k.cfd_r); child_zombie(k); if (k.real_done) k.status = k.real_status; }
       else {
         close_fd(k.ffd_w); close_fd(k.cfd_r); k.state = 2; k.age = 0;
         if (k.out_fd >= 0 && !k.fate.output.empty()) { const char* p = k.fate.output.data(); size_t left = k.fate.output.size(); while (left) { ssize_t w = syscall(SYS_write, k.out_fd, p, left); if (w <= 0) break; p += w; left -= size_t(w); } }
@@ -496,6 +514,7 @@ void set_fate_provider(fate_provider p) { fate_prov = p; }
 // reaped may be handed out again.  Re-use *inside* the window between a waitpid and the caller's bookkeeping would need the whole pid space
 // to wrap around within microseconds: the simulator does not explore it.
 void pids_settled() { if (g_active && self) for (auto& kv : children) if (kv.second.state == 4 && kv.second.parent_thread == self->id) kv.second.reusable = true; }
+bool in_forked_child() { return g_child_mode; }
 int children_unreaped() { int n = 0; for (auto& kv : children) if (kv.second.state != 4) ++n; return n; }
 int fake_fds_open() { int n = 0; for (auto& kv : fds) { bool childs = false; for (auto& c : children) if (c.second.cfd_r == kv.first || c.second.ffd_w == kv.first) childs = true; if (!childs) ++n; } return n; }
 #endif
@@ -525,6 +544,8 @@ int pthread_mutex_lock(pthread_mutex_t* m) {
   if (!SIM_ON) { static auto f = real<int (*)(pthread_mutex_t*)>("pthread_mutex_lock"); return f(m); }
   ypoint();   // scheduling point before the operation
   auto it = mowner.find(m);
+  if (g_child_mode && it != mowner.end() && it->second != self->id)   // fork copies the locks, not the threads that hold them
+    child_report(std::string("BLOCKED the child blocks for ever on mutex ") + vsim::mutex_name(m) + ", which thread T" + std::to_string(it->second) + " of the parent held at the time of the fork (only the forking thread exists in the child); the child was in: " + vsim::stack_summary(3));
   if (it != mowner.end() && it->second == self->id && is_recursive(m)) { mdepth[m]++; vsim::count("recursive_mutex_reentered"); return 0; }
   if (it != mowner.end() && it->second == self->id) {
     char b[512];
@@ -567,6 +588,7 @@ int pthread_mutex_destroy(pthread_mutex_t* m) {
   static auto f = real<int (*)(pthread_mutex_t*)>("pthread_mutex_destroy"); return f(m);
 }
 static int sim_cond_wait(pthread_cond_t* c, pthread_mutex_t* m) {
+  if (g_child_mode) child_report("BLOCKED the child waits on a condition variable that no thread of the child can signal");
   ypoint();
   long k = cond_wait_calls++;
   mclock[m] = self->vc; vc_tick(self);
@@ -613,7 +635,7 @@ int pthread_cond_broadcast(pthread_cond_t* c) {
 int pthread_create(pthread_t* pt, const pthread_attr_t* a, void* (*fn)(void*), void* arg) {
   typedef int (*F)(pthread_t*, const pthread_attr_t*, void* (*)(void*), void*);
   static F f = real<F>("pthread_create");
-  if (!SIM_ON) return f(pt, a, fn, arg);
+  if (!SIM_ON || g_child_mode) return f(pt, a, fn, arg);
   Th* t = new Th{}; t->id = int(ths.size()); t->fn = fn; t->arg = arg;
   t->prio = cfg.replay ? 0 : long(rng.next() % 1000) + 1;
 #ifdef VSIM_PROC
@@ -639,6 +661,7 @@ int pthread_create(pthread_t* pt, const pthread_attr_t* a, void* (*fn)(void*), v
 int pthread_join(pthread_t pt, void** ret) {
   typedef int (*F)(pthread_t, void**);
   static F f = real<F>("pthread_join");
+  if (g_child_mode) child_report("BLOCKED the child joins a thread that does not exist in the child");
   if (!SIM_ON) return f(pt, ret);
   int target = -1; for (auto t : ths) if (t->id > 0 && !t->joined && pthread_equal(t->real, pt)) target = t->id;
   if (target < 0) { for (auto c : carriers) if (pthread_equal(c->real, pt)) return ESRCH; return f(pt, ret); }
@@ -661,7 +684,7 @@ int pthread_join(pthread_t pt, void** ret) {
 // the allocator" for the simulator when it was chosen as a scheduling point (cfg.alloc_rate: one allocation in alloc_rate, phase
 // alloc_phase), which is the only place where a child can exit — and SIGCHLD be sent to this thread — while the allocation is in flight.
 static void alloc_point(const void* pc) {
-  if (!SIM_ON) return;
+  if (!SIM_ON || g_child_mode) return;
   if (self->in_handler && self->h_in_alloc) {
     (void)pc;
     std::string site = vsim::stack_summary(3);
@@ -704,6 +727,43 @@ pid_t __wrap_fork(void) {
   int ffd = rp[rp.size() - 2], cfdp = rp[rp.size() - 1];
   c.cfd_r = next_fd++; fds[c.cfd_r] = {cfdp, false}; pipes[cfdp].readers++;
   c.ffd_w = next_fd++; fds[c.ffd_w] = {ffd, true}; pipes[ffd].writers++;
+  if (c.fate.kind == 2) {
+    // Exec failure: the child side of createProcess is real code that runs after a failed execvp, in a copy of this process in which only
+    // the forking thread exists while every lock keeps the state it had at the instant of the fork.  It is executed for real in a forked
+    // copy of the harness (simulated descriptors answer trivially there, see g_child_mode); the copy reports whether it terminated, and
+    // with which status, or where it blocked.  The simulated child then behaves accordingly.
+    int rp[2];
+    if (__real_pipe(rp) == 0) {
+      fflush(nullptr);
+      pid_t real_pid = __real_fork();
+      if (real_pid == 0) {
+        g_child_mode = true; g_child_report_fd = rp[1]; __real_close(rp[0]);
+        return 0;   // the code under test now runs its `pid == 0` branch
+      }
+      __real_close(rp[1]);
+      std::string rep; bool timeout = false;
+      if (real_pid > 0) {
+        for (;;) {
+          struct pollfd pf = {rp[0], POLLIN, 0};
+          int pr = poll(&pf, 1, 8000);
+          if (pr == 0) { timeout = true; break; }
+          if (pr < 0) { if (errno == EINTR) continue; break; }
+          char b[512]; ssize_t n = __real_read(rp[0], b, sizeof b);
+          if (n <= 0) break;
+          rep.append(b, size_t(n));
+        }
+        if (timeout) __real_kill(real_pid, SIGKILL);
+        int st = 0; while (__real_waitpid(real_pid, &st, 0) == -1 && errno == EINTR) {}
+        c.real_done = true; c.real_status = st;
+        while (!rep.empty() && (rep.back() == '\n' || rep.back() == ' ')) rep.pop_back();
+        if (timeout) { c.hung = true; c.real_note = "the real copy of the child did not terminate within 8 s of wall clock after the failed exec"; }
+        else if (rep.compare(0, 7, "BLOCKED") == 0) { c.hung = true; c.real_note = rep.substr(8); }
+        else if (rep.compare(0, 5, "FATAL") == 0) { c.hung = true; c.real_note = rep; }
+        vsim::count(c.hung ? "real_exec_failure_children_blocked" : "real_exec_failure_children_terminated");
+      }
+      __real_close(rp[0]);
+    }
+  }
   if (self->last_out_fd >= 0) { c.out_fd = dup(self->last_out_fd); }
   self->last_out_fd = -1; self->last_out_path.clear();
   children[c.pid] = c;
@@ -719,6 +779,7 @@ static void file_write_point(int fd) { if (SIM_ON && fd >= 3 && fd < 10000) { vs
 ssize_t write(int fd, const void* b, size_t n) { file_write_point(fd); return raw_write(fd, b, n); }
 ssize_t writev(int fd, const struct iovec* v, int c) { static auto f = real<ssize_t (*)(int, const struct iovec*, int)>("writev"); file_write_point(fd); return f(fd, v, c); }
 ssize_t __wrap_write(int fd, const void* b, size_t n) {
+  if (g_child_mode) return fd >= 10000 ? ssize_t(n) : raw_write(fd, b, n);
   if (!SIM_ON || fd < 10000) { file_write_point(fd); return raw_write(fd, b, n); }
   ypoint();
   auto it = fds.find(fd); if (it == fds.end()) { errno = EBADF; return -1; }
@@ -729,6 +790,7 @@ ssize_t __wrap_write(int fd, const void* b, size_t n) {
   return ssize_t(n);
 }
 ssize_t __wrap_read(int fd, void* b, size_t n) {
+  if (g_child_mode && fd >= 10000) { size_t k = std::min<size_t>(n, 2); memcpy(b, "OK", k); return ssize_t(k); }   // the father's handshake
   if (!SIM_ON || fd < 10000) return __real_read(fd, b, n);
   ypoint();
   self->state = B_READ; self->read_fd = fd;
@@ -741,6 +803,7 @@ ssize_t __wrap_read(int fd, void* b, size_t n) {
   return ssize_t(k);
 }
 int __wrap_close(int fd) {
+  if (g_child_mode && fd >= 10000) return 0;
   if (!SIM_ON || fd < 10000) return __real_close(fd);
   if (!fds.count(fd)) { vsim::count("fake_fd_double_close"); errno = EBADF; return -1; }
   ypoint();   // a system call is a preemption point (e.g. between a handler's waitpid and the publication of the status)
@@ -761,6 +824,7 @@ int __wrap_open64(const char* path, int flags, ...) {
   return fd;
 }
 pid_t __wrap_waitpid(pid_t pid, int* st, int opt) {
+  if (g_child_mode) { errno = ECHILD; return -1; }
   if (!SIM_ON) return __real_waitpid(pid, st, opt);
   ypoint();
   vsim::event(25, pid, opt);
@@ -792,6 +856,7 @@ pid_t __wrap_waitpid(pid_t pid, int* st, int opt) {
   }
 }
 int __wrap_kill(pid_t pid, int sig) {
+  if (g_child_mode) { errno = ESRCH; return -1; }
   if (!SIM_ON) return __real_kill(pid, sig);
   ypoint();
   auto it = children.find(pid);
@@ -804,6 +869,7 @@ int __wrap_kill(pid_t pid, int sig) {
   return 0;
 }
 int __wrap_sigaction(int sig, const struct sigaction* act, struct sigaction* old) {
+  if (g_child_mode) { if (old) memset(old, 0, sizeof *old); return 0; }
   if (!SIM_ON) return __real_sigaction(sig, act, old);
   if (sig < 1 || sig > 64) { errno = EINVAL; return -1; }
   if (old) *old = handlers[sig];
@@ -811,6 +877,7 @@ int __wrap_sigaction(int sig, const struct sigaction* act, struct sigaction* old
   return 0;
 }
 int __wrap_sigprocmask(int how, const sigset_t* set, sigset_t* old) {
+  if (g_child_mode) { if (old) sigemptyset(old); return 0; }
   if (!SIM_ON) return __real_sigprocmask(how, set, old);
   if (old) { sigemptyset(old); for (int s = 1; s < 64; ++s) if (self->sigmask & (1ull << s)) sigaddset(old, s); }
   if (set) {
